@@ -73,7 +73,8 @@ def run(case):
     return None, ev
 
 
-CLASSES = ['VfA', 'VfB', 'VfC', 'VfX', 'KeyError', 'ZeroDivisionError']
+CLASSES = ['VfA', 'VfB', 'VfC', 'VfX', 'VfM', 'KeyError',
+           'ZeroDivisionError']
 HSETS = [['VfA'], ['VfB'], ['VfC'], ['VfX'], ['LookupError'],
          ['ArithmeticError', 'VfC'], [], ['VfX', 'VfB'], ['Exception']]
 WRAPS = ['none', 'in', 'with', 'let', 'if', 'unless-else', 'sub-try']
@@ -177,8 +178,32 @@ def enum_finally(body_act, fin_act, inner_wrap, outer_wrap):
     return wrap(outer_wrap, [T('<'), t, T('|after'), V('fa')]) + probe_end()
 
 
+def enum_raise_body_fails(cls, fk, hs):
+    """dtml-raise whose message body cannot be rendered: the named class is
+    raised all the same (the message is not specified)."""
+    bad = {'div0': dict(k='var', ref=dict(r='expr', e=dict(e='div0')),
+                        opts=[]),
+           'fr': V('fr'), 'undef': V('cu'),
+           'type': dict(k='var', ref=dict(r='expr', e=dict(
+               e='cat', a=dict(e='lit', v=1), b=dict(e='callname',
+                                                     n='vn'))), opts=[])}[fk]
+    r = RAISE(cls)
+    r['body'] = [T('m'), bad]
+    handlers = [dict(names=names, body=[T('H%d(' % i), V('error_type'),
+                                         T(')')])
+                for i, names in enumerate(hs)]
+    t = dict(k='try', body=[V('fa'), r, T('not-reached')], handlers=handlers,
+             **{'else': None, 'finally': None})
+    return [T('<'), t] + probe_after() + probe_end()
+
+
 def enum_cases():
     import itertools
+    for cls in ('VfA', 'VfB', 'VfM', 'KeyError', 'ZeroDivisionError'):
+        for fk in ('div0', 'fr', 'undef', 'type'):
+            for hs in [[h] for h in HSETS] + [[['VfX'], ['VfB']],
+                                              [['ArithmeticError'], []]]:
+                yield ['raise-body-fails', cls, fk, hs]
     for cls in CLASSES + [None]:
         lists = [[h] for h in HSETS] + [
             [a, b] for a, b in itertools.product(HSETS, repeat=2)
@@ -202,6 +227,8 @@ def enum_cases():
 
 
 def enum_ast(c):
+    if c[0] == 'raise-body-fails':
+        return enum_raise_body_fails(*c[1:])
     if c[0] == 'except':
         return enum_except(*c[1:])
     return enum_finally(*c[1:])
